@@ -644,6 +644,17 @@ func (obj *SparseInt8Matrix) UnmarshalJSON(data []byte) error {
   if len(r.Index) != len(r.Value) {
     return fmt.Errorf("invalid sparse vector")
   }
+  if r.Rows < 0 || r.Cols < 0 {
+    return fmt.Errorf("invalid sparse matrix")
+  }
+  // every index must address a distinct element
+  seen := make(map[int]bool)
+  for _, k := range r.Index {
+    if k < 0 || k >= r.Rows*r.Cols || seen[k] {
+      return fmt.Errorf("invalid sparse matrix")
+    }
+    seen[k] = true
+  }
   obj.values = NewSparseInt8Vector(r.Index, r.Value, r.Rows*r.Cols)
   obj.rows = r.Rows
   obj.rowMax = r.Rows
